@@ -75,6 +75,27 @@ Definition FilesSurvive (files rb : list hdr) : Prop :=
 Definition InstalledRoundTrip (p : pkg) (files : list hdr) (rb : res (list (pkg * list hdr))) : Prop :=
   exists p' fs, rb = Ok [(p', fs)] /\ SamePkg p p' /\ FilesSurvive files fs.
 
+(* The same minus the two things the recorded findings take away: install_if
+   (written in Go's slice syntax, C16-F1) and the per-file checksum (Z: is never
+   read, C16-F2). *)
+Record SamePkgButInstallIf (a b : pkg) : Prop := {
+  spi_name : p_name a = p_name b; spi_version : p_version a = p_version b; spi_arch : p_arch a = p_arch b;
+  spi_desc : p_desc a = p_desc b; spi_license : p_license a = p_license b; spi_origin : p_origin a = p_origin b;
+  spi_maint : p_maint a = p_maint b; spi_url : p_url a = p_url b; spi_commit : p_commit a = p_commit b;
+  spi_checksum : p_checksum a = p_checksum b; spi_deps : p_deps a = p_deps b; spi_provides : p_provides a = p_provides b;
+  spi_replaces : p_replaces a = p_replaces b;
+  spi_size : p_size a = p_size b; spi_isize : p_isize a = p_isize b; spi_prio : p_prio a = p_prio b;
+  spi_btime : p_btime a = p_btime b }.
+Record SameFileButChecksum (h r : hdr) : Prop := {
+  sfc_kind : h_isdir h = h_isdir r; sfc_mode : perm_of h = perm_of r;
+  sfc_uid : h_uid h = h_uid r; sfc_gid : h_gid h = h_gid r }.
+Definition FilesSurviveButChecksum (files rb : list hdr) : Prop :=
+  (forall h, In h files -> exists r, find_rec (clean (h_name h)) rb = Some r /\ SameFileButChecksum h r) /\
+  (forall r, In r rb -> exists h, In h files /\ clean (h_name h) = clean (h_name r)).
+Definition InstalledRoundTripPartial (p : pkg) (files : list hdr) (rb : res (list (pkg * list hdr))) : Prop :=
+  exists p' fs, rb = Ok [(p', fs)] /\ SamePkgButInstallIf p p' /\
+    p_installif p' = go_slice_readback (p_installif p) /\ FilesSurviveButChecksum files fs.
+
 (* Why an entry can be missing although the format could carry it: sortTarHeaders
    only emits what it reaches from the top-level directories that have children.
    [reachable] says whether it would: every ancestor is present as a directory
